@@ -248,6 +248,10 @@ class CInference(Inference):
             self.epistemic_state["vMin"] = dict()
         if "fMin" not in self.epistemic_state:
             self.epistemic_state["fMin"] = dict()
+        # the compiled base CSP survives with the epistemic state (later calls on one manager
+        # create a new CInference object and skip preprocessing)
+        if "base_csp" in self.epistemic_state:
+            self.base_csp = self.epistemic_state["base_csp"]
 
     def encoding(self, etas: dict, vSums: dict, fSums: dict) -> list:
         """
@@ -383,6 +387,7 @@ class CInference(Inference):
         self.compile_constraint(deadline)
         # self._translation_start_belief_base()
         self.base_csp = self.translate()
+        self.epistemic_state["base_csp"] = self.base_csp
         # self._translation_end_belief_base()
         # print("Translation done")
 
